@@ -4,7 +4,7 @@ import json
 META = {
     "level": "model_checking",
     "technique": "TLA+ model of the process-wide id counter model-checked over all thread interleavings (atomic step vs. load/store canary); ids allocated concurrently by OS threads through the public API validated by TLC (global distinctness, per-thread monotonicity)",
-    "text": "TLC explores every interleaving of 3 threads x 3 allocations: with the atomic fetch-and-add step all ids are distinct; the canary that splits it into load and store is rejected. Conformance: 8 (thorough 16) OS threads released by a barrier allocate 2 000 (50 000) ids each through the only public allocators - DialOpts::build().connection_id() and, on every fourth thread, inbound connections of a Swarm living on that thread; TLC checks over the recorded per-thread sequences that all ids are distinct and each thread's ids strictly increase.",
+    "text": "TLC explores every interleaving of 3 threads x 3 allocations: with the atomic fetch-and-add step all ids are distinct; the canary that splits it into load and store is rejected. Conformance: 8 (thorough 16) OS threads released by a barrier allocate 2 000 (50 000) ids each through the only public allocators - DialOpts::build().connection_id() and, on every fourth thread, inbound connections of a Swarm living on that thread, every other one of them denied by one of three composed behaviours at the pending stage (the id is used up all the same); a single-threaded phase (accepted / denied inbound connections interleaved with dial ids) runs first; TLC checks over the recorded per-thread sequences that all ids are distinct and each thread's ids strictly increase.",
     "note": "A racy (non-atomic) counter would be caught by the recorded run only probabilistically; the model check is what shows atomicity is necessary and sufficient.",
     "design_ref": "6/C03",
 }
